@@ -510,3 +510,28 @@ pub mod versions {
         crate::versioning::utils::find_file_with_upper_bound_range(&fs, &mk_key(target))
     }
 }
+
+/// Scheduling points: places where a thread does not hold the database mutex. With no controller
+/// installed a point is a no-op; a harness installs a controller that may park the calling thread.
+pub mod sched {
+    use std::sync::{Arc, RwLock};
+
+    type Controller = Arc<dyn Fn(&'static str) + Send + Sync>;
+
+    static CONTROLLER: RwLock<Option<Controller>> = RwLock::new(None);
+
+    pub fn install(controller: Controller) {
+        *CONTROLLER.write().unwrap() = Some(controller);
+    }
+
+    pub fn uninstall() {
+        *CONTROLLER.write().unwrap() = None;
+    }
+
+    pub fn point(name: &'static str) {
+        let controller = CONTROLLER.read().unwrap().clone();
+        if let Some(controller) = controller {
+            controller(name);
+        }
+    }
+}
